@@ -67,3 +67,14 @@ impl std::ops::Sub<Duration> for SystemTime {
         SystemTime(self.0.saturating_sub(d.as_nanos() as u64))
     }
 }
+
+/// `std::thread::sleep` for code running on the simulated machine: the virtual
+/// clock advances, no real time passes.
+pub fn sleep(d: Duration) {
+    if crate::machine::installed() {
+        crate::machine::with(|m| {
+            m.clock_ns = m.clock_ns.saturating_add(d.as_nanos().min(u64::MAX as u128) as u64);
+            m.stat("simulated_sleep");
+        });
+    }
+}
